@@ -220,6 +220,30 @@ func checkC03(c *ev.Ctx) {
 		}
 		streams = append(streams, validStream{ID: "corpus:" + n, Src: "corpus", Bytes: b, Content: out, Decl: decl, Feat: strings.Join(man[n].Args, " ")})
 	}
+	// (i') containers around chunks at the format's size limit (exactly 65536 compressed bytes
+	// and a little less): no encoder at hand produces them, the specification allows them
+	for i, target := range []int{65536, 65535, 65534, 65281} {
+		for try := 0; try < 40; try++ {
+			l2, content, ok := ref.GenFullChunk(prng.New(c.Seed, 33, uint64(i), uint64(try)), target, 4096)
+			if !ok {
+				continue
+			}
+			check := []byte{ref.CheckCRC32, ref.CheckCRC64, ref.CheckSHA256, ref.CheckNone}[i]
+			b := ref.BuildXZ(check, []ref.BlockSpec{{LZMA2: l2, Content: content, DictCode: 0, WithComp: i%2 == 0, WithUnc: i%2 == 0}})
+			if o, _, err := ref.DecodeXZ(b, 0); err != nil || !bytes.Equal(o, content) {
+				c.Count("generator_rejected", 1)
+				break
+			}
+			if lzc.Available() {
+				if res := lzc.DecodeXZ(b, false, 0); !res.OK() || !bytes.Equal(res.Out, content) {
+					c.Count("generator_rejected", 1)
+					break
+				}
+			}
+			streams = append(streams, validStream{ID: fmt.Sprintf("fullchunk%d", target), Src: "refenc", Bytes: b, Content: content, Decl: 4096, Feat: fmt.Sprintf("fullchunk%d;chunks:LRND,raw,L,end", target)})
+			break
+		}
+	}
 	// (ii) fresh liblzma encodings, (iii) generated: built in parallel, deterministic per index
 	if lzc.Available() {
 		par(nfresh, func(i int) {
